@@ -168,3 +168,41 @@ def applyRefAll (n : Json) : Diff → Option Json
   | h :: d => (applyHunkRef n h.path h).bind (applyRefAll · d)
 
 end Jd.Spec
+
+namespace Jd.Spec
+open Jd
+
+mutual
+/-- forget the Go dynamic type of array nodes -/
+def untag : Json → Json
+  | .arr _ xs => .arr .raw (untagList xs)
+  | .obj kvs => .obj (untagKvs kvs)
+  | n => n
+def untagList : List Json → List Json
+  | [] => []
+  | x :: r => untag x :: untagList r
+def untagKvs : List (String × Json) → List (String × Json)
+  | [] => []
+  | (k, v) :: r => (k, untag v) :: untagKvs r
+end
+
+/-- a path made of object keys and list indices only -/
+def strictPath : Path → Bool
+  | [] => true
+  | .key _ :: r => strictPath r
+  | .idx _ :: r => strictPath r
+  | _ => false
+
+def hunkListDoc (h : Hunk) : Bool :=
+  listDocList h.before && listDocList h.remove && listDocList h.add && listDocList h.after
+
+def optToOutcome {α} : Option α → Outcome α
+  | some a => .ok a
+  | none => .err
+
+def Outcome.mapO {α β} (f : α → β) : Outcome α → Outcome β
+  | .ok a => .ok (f a)
+  | .err => .err
+  | .panic => .panic
+
+end Jd.Spec
